@@ -25,7 +25,73 @@ def sh(cmd, cwd, timeout=900):
     r = subprocess.run(cmd, shell=True, cwd=cwd, stdout=subprocess.PIPE, stderr=subprocess.STDOUT, text=True, timeout=timeout)
     return r.returncode, r.stdout
 
+ROUND2 = [
+ # id, property, worktree, subdir, demo build command (run from the worktree root)
+ ("C18-r2m1", "C18", "/tmp/mut2-c18", "OUT/m1", "gcc -g -fsanitize=address -Isrc -I{d} {d}/demo.c src/varintBitmap.c src/varintExternal.c -Wl,--wrap=malloc,--wrap=calloc,--wrap=realloc,--wrap=free -o {bin}"),
+ ("C18-r2m2", "C18", "/tmp/mut2-c18", "OUT/m2", "gcc -g -fsanitize=address -Isrc -I{d} {d}/demo.c src/varintDict.c src/varintExternal.c src/varintTagged.c -Wl,--wrap=malloc,--wrap=calloc,--wrap=realloc,--wrap=free -o {bin}"),
+ ("C18-r2m3", "C18", "/tmp/mut2-c18", "OUT/m3", "gcc -g -fsanitize=address -Isrc -I{d} {d}/demo.c src/varintBitmap.c src/varintExternal.c -Wl,--wrap=malloc,--wrap=calloc,--wrap=realloc,--wrap=free -o {bin}"),
+ ("C14-r2m1", "C14", "/tmp/mut2-c14", "OUT/m1", "cc -g -O1 -fsanitize=address -fno-omit-frame-pointer -Isrc {d}/demo.c src/varintDict.c src/varintTagged.c src/varintExternal.c -o {bin}"),
+ ("C14-r2m2", "C14", "/tmp/mut2-c14", "OUT/m2", "cc -g -O1 -fsanitize=address -fno-omit-frame-pointer -Isrc {d}/demo.c src/varintBitmap.c -o {bin}"),
+ ("C13-r2m3", "C13", "/tmp/mut2-c14", "OUT/m3", "cc -g -O1 -fsanitize=address -fno-omit-frame-pointer -Isrc {d}/demo.c src/varintBP128.c src/varintTagged.c -o {bin}"),
+ ("C15-r2m1", "C15", "/tmp/mut2-c15", "OUT/m1", "cc -O1 -g -Isrc {d}/demo.c src/varintPFOR.c src/varintTagged.c src/varintExternal.c -o {bin}"),
+ ("C15-r2m2", "C15", "/tmp/mut2-c15", "OUT/m2", "cc -O1 -g -Isrc {d}/demo.c src/varintAdaptive.c src/varintDelta.c src/varintFOR.c src/varintPFOR.c src/varintDict.c src/varintBitmap.c src/varintTagged.c src/varintExternal.c -o {bin}"),
+ ("C17-r2m3", "C17", "/tmp/mut2-c15", "OUT/m3", "clang -O1 -g -fsanitize=thread -pthread -Isrc {d}/demo.c src/varintDict.c src/varintTagged.c src/varintExternal.c -o {bin}"),
+ ("C17-r2m4", "C17", "/tmp/mut2-c15", "OUT/m4", "clang -O1 -g -fsanitize=thread -pthread -Isrc {d}/demo.c src/varintElias.c -o {bin}"),
+ ("C09-r2m1", "C09", "/tmp/mut2-c09", "OUT/m1", "cc -O1 -w -I src {d}/demo.c -o {bin}"),
+ ("C09-r2m2", "C09", "/tmp/mut2-c09", "OUT/m2", "cc -O1 -w -I src {d}/demo.c -o {bin}"),
+ ("C10-r2m3", "C10", "/tmp/mut2-c09", "OUT/m3", "cc -O1 -w -I src {d}/demo.c src/varintDimension.c src/varintExternal.c src/varintTagged.c -lm -o {bin}"),
+ ("C10-r2m4", "C10", "/tmp/mut2-c09", "OUT/m4", "cc -O1 -w -I src {d}/demo.c src/varintDimension.c src/varintExternal.c src/varintTagged.c -lm -o {bin}"),
+ ("C08-r2m1", "C08", "/tmp/mut2-c08", "OUT/m1", "cc -I src {d}/demo.c src/varintBitmap.c -o {bin}"),
+ ("C08-r2m2", "C08", "/tmp/mut2-c08", "OUT/m2", "cc -I src {d}/demo.c src/varintBitmap.c -o {bin}"),
+ ("C08-r2m3", "C08", "/tmp/mut2-c08", "OUT/m3", "cc -I src {d}/demo.c src/varintBitmap.c -o {bin}"),
+ ("C08-x1", "C08", "/tmp/mut2-c08", "OUT/x1", "cc -I src {d}/demo.c src/varintBitmap.c -o {bin}"),
+ ("C08-x2", "C08", "/tmp/mut2-c08", "OUT/x2", "cc -I src {d}/demo.c src/varintBitmap.c -o {bin}"),
+ ("C08-r3m1", "C08", "/tmp/mut2-c08", "OUT/m1", "cc -I src {d}/demo.c src/varintBitmap.c -o {bin}"),
+ ("C08-r3m2", "C08", "/tmp/mut2-c08", "OUT/m2", "cc -I src {d}/demo.c src/varintBitmap.c -o {bin}"),
+ ("C08-r3m3", "C08", "/tmp/mut2-c08", "OUT/m3", "cc -I src {d}/demo.c src/varintBitmap.c -o {bin}"),
+ ("C13-r2m4", "C13", "/tmp/mut2-c14", "OUT/m4", "cc -g -O1 -fsanitize=address -fno-omit-frame-pointer -Isrc {d}/demo.c src/varintElias.c -o {bin}"),
+]
+
+
+def verify_entry(ident, prop, wt, sub, cmd):
+    d = os.path.join(wt, sub)
+    binp = os.path.join(sub, "demo_bin")
+    build = cmd.format(d=sub, bin=binp)
+    # demo sources may hard-code absolute includes; run from the worktree root
+    sh("git checkout -- . ", wt)
+    rec = {"id": ident, "property": prop, "breaks_property": prop}
+    rc, o = sh(build + " && ./" + binp, wt)
+    rec["demo_on_clean_tree"] = "exit %d" % rc
+    rc_a, o_a = sh("git apply " + os.path.join(sub, "patch.diff"), wt)
+    rec["patch_applies"] = rc_a == 0
+    rc_t, o_t = sh("cmake -G Ninja -S . -B _build -DCMAKE_BUILD_TYPE=RelWithDebInfo >/dev/null && cmake --build _build >/dev/null 2>&1 && ctest --test-dir _build -j8 2>&1 | tail -3", wt)
+    rec["suite_with_change"] = "13/13 passed" if "100% tests passed, 0 tests failed out of 13" in o_t else "FAILED: " + o_t[-200:]
+    rc2, o2 = sh(build + " && ./" + binp, wt)
+    rec["demo_with_change"] = "exit %d" % rc2
+    rec["demo_output_with_change"] = [l for l in o2.splitlines() if l.strip()][-3:]
+    sh("git checkout -- . && rm -f " + binp, wt)
+    rec["confirmed"] = (rc == 0 and rc_a == 0 and rc2 != 0 and rec["suite_with_change"].startswith("13/13"))
+    rec["demo_build_cmd"] = cmd.format(d=".", bin="demo")
+    rec["confirmed_how"] = "tools/seeded_verify.py in the scratch worktree: demo exits 0 on the clean tree; patch applies; unedited suite 13/13 with the change; demo fails with the change"
+    print(ident, "confirmed" if rec["confirmed"] else "NOT CONFIRMED", rec["demo_on_clean_tree"], rec["demo_with_change"], rec["suite_with_change"])
+    if rec["confirmed"]:
+        dst = os.path.join(V, "seeded", ident)
+        os.makedirs(dst, exist_ok=True)
+        for f in os.listdir(d):
+            if f in ("patch.diff", "demo.c", "README.md") or f.endswith(".h"):
+                shutil.copy(os.path.join(d, f), os.path.join(dst, f))
+        json.dump(rec, open(os.path.join(dst, "meta.json"), "w"), indent=1)
+    return rec
+
+
 def main():
+    if len(sys.argv) > 1 and sys.argv[1] == "round2":
+        sel = sys.argv[2:]
+        for e in ROUND2:
+            if sel and e[0] not in sel:
+                continue
+            verify_entry(*e)
+        return 0
     results = []
     for pid in ["c08", "c09", "c10", "c13", "c14", "c15", "c17", "c18"]:
         wt = "/tmp/mut-" + pid
